@@ -345,6 +345,14 @@ func (e *SpecEnv) fieldOf(b Val, name string) Val {
 	if sc, ok := b.(Scalar); ok {
 		// ghost field of an interface-typed (reference-like) value
 		if n, td := c.ghostOwner(sc.Ty); td != nil {
+			if td.Impl != "" {
+				// interface known to hold pointers to one concrete struct type
+				if ipk := c.prog.byPath[n.Obj().Pkg().Path()]; ipk != nil && ipk.types != nil {
+					if tn, ok := ipk.types.Scope().Lookup(td.Impl).(*types.TypeName); ok {
+						return e.fieldOf(Ptr{sc.T, c.idx(0), tn.Type()}, name)
+					}
+				}
+			}
 			for _, g := range td.Ghost {
 				if g.Name == name {
 					return e.specLoad(c.elemPrefix(n)+"."+name, c.resolveTypeText(g.Type), sc.T, c.idx(0))
@@ -471,6 +479,22 @@ func (e *SpecEnv) quant(n *SQuant) Val {
 	for _, b := range binders {
 		f := strings.Fields(strings.TrimPrefix(b, "("))
 		bound = append(bound, f[0])
+	}
+	if len(bound) == 1 && c.mode == ModeInt && strings.HasSuffix(binders[0], " Int)") && n.Forall && c.goalMode == 0 {
+		// also state the equivalent formula re-indexed by the absolute row index (robust triggers); the two
+		// quantifiers are equivalent, so their conjunction has the same truth value in every position
+		if rb := reindexQuant(body.S, bound[0]); rb != body.S {
+			mk := func(b string, v string) string {
+				nb := strings.ReplaceAll(b, bound[0], v)
+				binder := "(" + v + " Int)"
+				if pats := c.choosePatterns(nb, []string{v}); pats != "" {
+					return fmt.Sprintf("(forall (%s) (! %s %s))", binder, nb, pats)
+				}
+				return fmt.Sprintf("(forall (%s) %s)", binder, nb)
+			}
+			v2 := c.sym("j")
+			return Scalar{And(Term{mk(body.S, bound[0]), SBool}, Term{mk(rb, v2), SBool}), tBool}
+		}
 	}
 	if pats := c.choosePatterns(body.S, bound); pats != "" {
 		return Scalar{Term{fmt.Sprintf("(%s (%s) (! %s %s))", q, strings.Join(binders, " "), body.S, pats), SBool}, tBool}
@@ -740,6 +764,8 @@ func (e *SpecEnv) call(n *SCall) Val {
 			return Scalar{s.Ref, tInt}
 		case ArrayV:
 			return Scalar{s.Ref, tInt}
+		case Scalar:
+			return Scalar{s.T, tInt}
 		}
 		e.fail("ref of unsupported value")
 	case "off":
@@ -747,6 +773,11 @@ func (e *SpecEnv) call(n *SCall) Val {
 			return Scalar{s.Off, tInt}
 		}
 		e.fail("off of non-slice")
+	case "pidx":
+		if p, ok := e.eval(n.Args[0]).(Ptr); ok {
+			return Scalar{p.Idx, tInt}
+		}
+		e.fail("pidx needs a pointer")
 	case "samehdr":
 		a, aok := e.eval(n.Args[0]).(Slice)
 		b, bok := e.eval(n.Args[1]).(Slice)
@@ -873,7 +904,7 @@ func refOf(v Val) Term {
 	case NilV:
 		return Term{"0", SInt}
 	}
-	panic(unsupported{"spec: ref of unsupported value"})
+	panic(unsupported{fmt.Sprintf("spec: ref of unsupported value %T", v)})
 }
 
 func (e *SpecEnv) findSpecFunc(name string) *SpecFunc {
@@ -954,7 +985,7 @@ func (e *SpecEnv) applySpecFunc(sf *SpecFunc, args []SExpr) Val {
 	if k, ok := r.(Const); ok {
 		r = c.asScalar(k, rt)
 	}
-	if s, ok := r.(Scalar); ok && e.qdepth == 0 && c.noName == 0 {
+	if s, ok := r.(Scalar); ok && e.qdepth == 0 && c.noName == 0 && !strings.Contains(s.T.S, "(forall") && !strings.Contains(s.T.S, "(exists") {
 		return Scalar{c.nameIfBig(s.T, sf.Name), rt}
 	} else if ok {
 		return Scalar{s.T, rt}
